@@ -1,5 +1,7 @@
 pub mod bus;
+pub mod dma;
 pub mod irq;
+pub mod joypad;
 pub mod lcd;
 pub mod mbc;
 pub mod sm83;
